@@ -194,7 +194,7 @@ int main(int argc, char** argv) {
     }
   R.count("api_cases", nb);
   // (c) round trip: decode(encode(x, S)) == x for all byte strings up to length 2 (quick) / 3 (thorough)
-  uint64_t nc = 0;
+  uint64_t nc = 0, n_noninj = 0;
   int maxlen = int(A.geti("rtlen", T ? 3 : 2));
   for (auto& sd : S) {
     for (int len = 0; len <= maxlen; len++) {
@@ -206,11 +206,26 @@ int main(int argc, char** argv) {
         std::string e = ada::unicode::percent_encode(s, sd.table);
         std::string d = ada::unicode::percent_decode(e, e.find('%'));
         nc++;
+        // Six of the Standard's seven sets do not contain '%', so a literal "%HH" in x is copied verbatim and then
+        // decodes to one byte: encoding is not injective there BY DEFINITION of the sets (first clause of the
+        // statement). The inversion clause is judged on every x that has no "%HH" when '%' is not in the set,
+        // and on every x for the sets that escape '%'; the skipped cases must still follow the definition exactly.
+        bool pct_in_set = refurl::in_encode_set(sd.ref, '%');
+        bool has_escape = false;
+        for (size_t i = 0; i + 2 < s.size() + 0 && !has_escape; i++)
+          if (s[i] == '%' && isxdigit(static_cast<unsigned char>(s[i + 1])) && isxdigit(static_cast<unsigned char>(s[i + 2]))) has_escape = true;
+        if (!pct_in_set && has_escape) {
+          n_noninj++;
+          std::string em = refurl::percent_encode(s, sd.ref), dm = refurl::percent_decode(em);
+          if (e != em || d != dm) viol(std::string("roundtrip-definition/") + sd.name, std::string(sd.name) + ": \"" + show(s) + "\" -> \"" + show(e) + "\" -> \"" + show(d) + "\" but the Standard gives \"" + show(em) + "\" -> \"" + show(dm) + "\"", wit("roundtrip", sd.name, s), s.size());
+          continue;
+        }
         if (d != s) { viol(std::string("roundtrip/") + sd.name, std::string(sd.name) + ": \"" + show(s) + "\" -> \"" + show(e) + "\" -> \"" + show(d) + "\"", wit("roundtrip", sd.name, s), s.size()); }
       }
     }
   }
   R.count("roundtrip_strings", nc);
+  R.count("roundtrip_not_injective_by_definition", n_noninj);
   // malformed escapes stay literal
   std::vector<std::string> dt = {"%", "4", "1", "G", "g", "a", "F", "+", " ", "\xff"};
   uint64_t nd = enum_tokens(dt, 0, T ? 7 : 6, sh, ns, [&](const std::string& s, uint64_t) {
